@@ -679,7 +679,7 @@ func init() {
 		Level: "exploration",
 		Rule: "every case is one session of the real engine over a flow whose first node carries the router under test, with one distinct destination node per exit; the oracle is a reference decision list that evaluates operand and (localized) arguments itself, calls the registered test and applies the statement. " +
 			"Enumerated exhaustively: (T) switch routers with every case list of length 0..2 (thorough: ..3) over an alphabet of atoms = registered test (all of cases.XTESTS, read from the registry) x argument vector {literal hit, literal miss, expression form, argument evaluating to an error, one argument too many, localized base-hits/translation-misses, localized base-misses/translation-hits, translation of different length, second literal} " +
-			"(lengths 0..1: all atoms; length 2: quick = the literal atom of every test + all atoms of 6 representative tests, thorough = all atoms; length 3 (thorough): the literal atom of every test + all atoms of 2 representative tests) x {default, no default} x 13 operands (5 texts arriving as contact input, number, datetime, nil, error, result object, group array, classification result, mixed template) x contact language {base, translated (when a case is localized)}; " +
+			"(lengths 0..1: all atoms; length 2: quick = the literal atom of every test + all atoms of 6 representative tests, thorough = all atoms; length 3 (thorough): the literal atom of every test + 7 special atoms (miss, erroring argument, wrong count, localized variants) of has_any_word and has_category) x {default, no default} x 13 operands (5 texts arriving as contact input, number, datetime, nil, error, result object, group array, classification result, mixed template) x contact language {base, translated (when a case is localized)}; " +
 			"(S) case lists of length 0..2 (thorough ..3) over 6 core atoms x 13 operands x 4 category assignments (distinct, cases sharing a category, default sharing a case's category, equal names) x 4 exit assignments (identity, reversed, all categories one exit, two categories sharing an exit) x default x result name x {no wait, msg wait + msg resume, wait with timeout + msg resume, wait with timeout + timeout resume} x language; " +
 			"(R) random routers with 2..4 categories x boundary draws {0, largest float64 below k/n, smallest float64 >= k/n, the same on the 2^-53 grid, 1-2^-53} (thorough: + bucket middles) x exit assignments x result name; (N) nodes without router with 1..2 exits x each exit with/without destination (0 exits: definition rejected). " +
 			"Every (router, operand, language, resume) is distinct by construction; distinct_nontrivial counts the sessions in which the decision list did real work (some case matched or errored) plus all timeout, random and router-less sessions.",
